@@ -79,6 +79,37 @@ MOS.append(
              precedes(H + "insert", call(r"= (hnsw_backend::)?normalize_in_place_if_needed\(", name="normalize_in_place_if_needed"), call(r"= HnswVectorIndex::validate_vector\(", name="validate_vector"))),
        functions=[("hnsw_backend.rs", "insert")], role="preflight-weaker-than-index"))
 
+def rollback_args(F):
+    """The rollback target is the stable state captured by the caller before the first attempt: the arguments passed to
+    rollback_to_stable_state are exactly this function's (stable_offset, stable_entry_count) parameters."""
+    from vlib.mirflow import origin as _o
+    import vlib.mir as _M
+    out = []
+    for fn_name in (P + "WalWriter::append_internal_with_rollback", P + "WalWriter::append_batch_internal_with_rollback"):
+        fc = FnCheck(F, fn_name)
+        if fc.fn is None:
+            out.append(fc.missing())
+            continue
+        blocks = [b for b in fc.fn.blocks.values() if not b.cleanup and ROLLBACK.match_block(fc.fn, b)]
+        if not blocks:
+            out.append(Result("inconclusive", "no rollback_to_stable_state call in %s" % fn_name))
+            continue
+        for b in blocks:
+            args = _M._split_top(b.args)
+            o1, o2 = _o(fc.fn, args[1]), _o(fc.fn, args[2])
+            r = fc.reachable(ROLLBACK)
+            smp = {"fn": fc.name, "kind": "PROVENANCE", "call": "rollback_to_stable_state", "offset_arg": o1[:80], "count_arg": o2[:80]}
+            if o1.startswith("arg(_3: u64)") and o2.startswith("arg(_4: usize)"):
+                out.append(Result("holds", "rollback target = (stable_offset, stable_entry_count) parameters", queries=r.queries, seconds=r.seconds, sample=smp))
+            else:
+                out.append(Result("violated", "%s rolls back to (%s, %s) instead of the stable state captured before the attempt: frames written by the failed attempt stay in the log" % (
+                    fn_name.split("::")[-1], o1[:80], o2[:80]), queries=r.queries, seconds=r.seconds, sample=smp))
+    return out
+
+
+MOS.append(MO("O3.3/rollback_target", "append_internal_with_rollback / append_batch_internal_with_rollback roll back to the caller's stable offset and entry count (MIR provenance of the call arguments; reachability by z3)",
+              rollback_args, functions=[("persistence.rs", "append_internal_with_rollback"), ("persistence.rs", "append_batch_internal_with_rollback")]))
+
 FK = [("hnsw_backend.rs", "normalize_in_place_if_needed"), ("hnsw_index.rs", "add_vector"), ("hnsw_backend.rs", "insert")]
 ROWS = [("euclidean_d1", "quick"), ("euclidean_d2", "quick"), ("cosine_d1", "quick"), ("cosine_d2", "quick"), ("inner_product_d2", "quick"),
         ("euclidean_d4", "thorough"), ("cosine_d3", "thorough")]
@@ -102,6 +133,9 @@ PERSIST_HARNESSES = [
        src="persistence.rs", functions=FPS, bounds="one good frame; second append whose sync_all fails", assumptions=PA3, timeout=1500, replay="solver-only", tier="thorough"),
     KH("O3.4/rollback_fails", "c03_o4_rollback_failure_surfaces", "append_internal_with_rollback: when the rollback's own set_len or seek fails the call still returns Err (never acknowledged)",
        src="persistence.rs", functions=FPS, bounds="write cut after 10 bytes; set_len or seek of the rollback fails (symbolic choice)", assumptions=PA3, timeout=1500, replay="solver-only", tier="thorough"),
+    KH("O3.4/batch", "c03_o4_batch_all_or_nothing", "append_batch_internal_with_rollback: a batch whose write is cut or whose fsync fails leaves no frame of the batch in the log (the fsync case keeps a complete frame on disk "
+       "until the rollback truncates it)", src="persistence.rs", functions=FPS + [("persistence.rs", "append_batch_internal_with_rollback"), ("persistence.rs", "append_batch_internal")],
+       bounds="one good frame; a one-entry batch with a symbolic fault (write cut at any byte, or fsync failure)", assumptions=PA3, timeout=1500, replay="solver-only", tier="thorough"),
     KH("O3.4/retry", "c03_o4_retry_after_rollback", "after a rolled-back short write a fault-free retry yields exactly two well-formed durable frames",
        src="persistence.rs", functions=FPS, bounds="write cut after 10 bytes, then a clean retry", assumptions=PA3, timeout=1500, replay="solver-only", tier="thorough"),
 ]
